@@ -38,7 +38,7 @@ class _SockReader(io.RawIOBase):
 
 
 class SimSocket:
-    def __init__(self, script: ClientScript, tape: Tape, rbuf: int = 8192, reset_on_send: int | None = None, max_fragment: int = 0) -> None:
+    def __init__(self, script: ClientScript, tape: Tape, rbuf: int = 8192, reset_on_send: int | None = None, max_fragment: int = 0, timeout_at: int | None = None) -> None:
         self.script = script
         self.tape = tape
         self.rbuf = rbuf
@@ -59,6 +59,8 @@ class SimSocket:
         self.max_fragment = max_fragment
         self.timeout = None
         self.blocked_on_gate = False
+        self.timeout_at = timeout_at
+        self.timeout_fired = False
 
     # -- what has "arrived" ------------------------------------------------
     def _current(self) -> bytes | None:
@@ -88,6 +90,10 @@ class SimSocket:
         self.recv_calls += 1
         if self.recv_calls > 200000:
             raise SimHang("server keeps calling recv")
+        if self.timeout_at is not None and self.recv_calls - 1 == self.timeout_at and not self.timeout_fired:
+            # a stalled client: the socket's timeout expires (socket.timeout is TimeoutError, an OSError)
+            self.timeout_fired = True
+            raise TimeoutError("simulated socket timeout")
         mv = memoryview(buf).cast("B")
         self.blocked_on_gate = False
         data = self._current()
@@ -244,12 +250,12 @@ def handler_class(protocol: str):
     return _HANDLERS[key]
 
 
-def run_exchange(app, script: ClientScript, tape: Tape, *, protocol: str = "HTTP/1.1", rbuf: int = 8192, reset_on_send: int | None = None, max_fragment: int = 0):
+def run_exchange(app, script: ClientScript, tape: Tape, *, protocol: str = "HTTP/1.1", rbuf: int = 8192, reset_on_send: int | None = None, max_fragment: int = 0, timeout_at: int | None = None):
     """Run one request/response exchange through the real handler.  Returns
     (socket, server, selector module, exception escaping the handler or None)."""
     import werkzeug.serving as serving
 
-    sock = SimSocket(script, tape, rbuf=rbuf, reset_on_send=reset_on_send, max_fragment=max_fragment)
+    sock = SimSocket(script, tape, rbuf=rbuf, reset_on_send=reset_on_send, max_fragment=max_fragment, timeout_at=timeout_at)
     server = SimServer(app)
     selmod = SimSelectorModule()
     real = serving.selectors
